@@ -893,8 +893,15 @@ func (g *Gen) terraformZoo(b *BodySpec) {
 	if g.chance(0.5) {
 		ruleExt = &ExtSpec{Count: g.chance(0.5)}
 	}
+	resTargetable := g.chance(0.4)
 	resBody := func(i int) *BodySpec {
-		return &BodySpec{Detail: "res detail", Desc: fmt.Sprintf("resource %d", i), DocsLink: &DocsLinkSpec{URL: fmt.Sprintf("https://example.com/r/%d", i)}, HoverURL: fmt.Sprintf("https://example.com/r/%d", i),
+		var tas []*TargetableSpec
+		if resTargetable {
+			root := fmt.Sprintf("restgt.r%d", i)
+			tas = []*TargetableSpec{{Addr: root, Scope: "resource", Type: "object({zone=string,id=string,arn=string})", Name: "resource data",
+				Nested: []*TargetableSpec{{Addr: root + ".zone", Type: "string"}, {Addr: root + ".id", Type: "string"}, {Addr: root + ".arn", Type: "string"}}}}
+		}
+		return &BodySpec{Detail: "res detail", Desc: fmt.Sprintf("resource %d", i), DocsLink: &DocsLinkSpec{URL: fmt.Sprintf("https://example.com/r/%d", i)}, HoverURL: fmt.Sprintf("https://example.com/r/%d", i), TargetableAs: tas,
 			Attrs: []*AttrSpec{
 				{Name: "id", Comp: true, Cons: &ConsSpec{K: "any", Type: "string"}},
 				{Name: "name", Req: true, Cons: &ConsSpec{K: "any", Type: "string"}},
